@@ -313,21 +313,9 @@ class Gadget:
                 if ap[1].attr == "branch_value_table":
                     self.head_tbls.add(ap[0][0].id)
 
-    def stores_for(self, actor: ast.Call) -> List[Tuple[ast.Assign, str, ast.AST]]:
-        """stores `variable_assignment[V] = e` feeding the assignment block built by actor"""
-        va = kw(actor, "variable_assignment")
-        if not isinstance(va, ast.Name):
-            return []
-        cfg = self.ctx.cfg(self.fn)
-        an = cfg.node_of(actor)
-        out = []
-        dnodes = [d for d in cfg.reaching_defs(actor, va.id) if d.stmt is not None]
-        for s in A.walk_no_nested(self.fn.node):
-            if isinstance(s, ast.Assign) and len(s.targets) == 1 and isinstance(s.targets[0], ast.Subscript) and A.unparse(s.targets[0].value) == va.id:
-                sn = cfg.node_of(s)
-                if any(sn in cfg.reachable(d, avoid=lambda z, dd=dnodes: z in dd) for d in dnodes) and an in cfg.reachable(sn, avoid=lambda z, dd=dnodes: z in dd):
-                    out.append((s, A.unparse(s.targets[0].slice), s.value))
-        return out
+    def stores_for(self, actor: ast.Call) -> List[Tuple[ast.AST, str, ast.AST]]:
+        """entries `V: e` of the assignment table of the block built by actor (see _va_entries)"""
+        return _va_entries(self.ctx, self.fn, actor)
 
     def arc_kind(self, actor: ast.Call) -> Optional[str]:
         """'exit' / 'header': from the table the second-level value is looked up in,
@@ -376,6 +364,52 @@ class Gadget:
         return out
 
 
+def _va_entries(ctx, fn, actor: ast.Call) -> List[Tuple[ast.AST, str, ast.AST]]:
+    """[(statement, variable text, value expression)] of the `variable_assignment=` of an assignment-block
+    constructor, in either spelling: a dict display (`variable_assignment={V: e}`, or a local initialised
+    with one) or subscript stores `va[V] = e` between the definition of the local and the constructor"""
+    va = kw(actor, "variable_assignment")
+    out: List[Tuple[ast.AST, str, ast.AST]] = []
+    if isinstance(va, ast.Dict):
+        st = A.enclosing_stmt(actor) or actor
+        for k_, v_ in zip(va.keys, va.values):
+            if k_ is not None:
+                out.append((st, A.unparse(k_), v_))
+        return out
+    if not isinstance(va, ast.Name):
+        return []
+    cfg = ctx.cfg(fn)
+    an = cfg.node_of(actor)
+    dnodes = [d for d in cfg.reaching_defs(actor, va.id) if d.stmt is not None]
+    for d in dnodes:
+        ap = _assign_parts(d.stmt) if isinstance(d.stmt, (ast.Assign, ast.AnnAssign)) else None
+        if ap and isinstance(ap[1], ast.Dict):
+            for k_, v_ in zip(ap[1].keys, ap[1].values):
+                if k_ is not None:
+                    out.append((d.stmt, A.unparse(k_), v_))
+    for s_ in A.walk_no_nested(fn.node):
+        if isinstance(s_, ast.Assign) and len(s_.targets) == 1 and isinstance(s_.targets[0], ast.Subscript) and A.unparse(s_.targets[0].value) == va.id:
+            sn = cfg.node_of(s_)
+            if any(sn in cfg.reachable(d, avoid=lambda z, dd=dnodes: z in dd) for d in dnodes) and an in cfg.reachable(sn, avoid=lambda z, dd=dnodes: z in dd):
+                out.append((s_, A.unparse(s_.targets[0].slice), s_.value))
+    return out
+
+
+def _va_assigned_on_all_paths(ctx, fn, actor: ast.Call, V: str) -> bool:
+    """the table of the block built by actor has an entry for V on every path to the constructor"""
+    va = kw(actor, "variable_assignment")
+    entries = [(s_, v_) for s_, v_, _e in _va_entries(ctx, fn, actor) if v_ == V]
+    if isinstance(va, ast.Dict):
+        return bool(entries)
+    if not isinstance(va, ast.Name):
+        return False
+    cfg = ctx.cfg(fn)
+    an = cfg.node_of(actor)
+    dnodes = [d for d in cfg.reaching_defs(actor, va.id) if d.stmt is not None]
+    sn = {cfg.node_of(s_) for s_, _v in entries}
+    return bool(dnodes) and all(d in sn or an not in cfg.reachable(d, avoid=lambda z: z in sn) for d in dnodes)
+
+
 _RL_CTX = None  # set by Gadget.__init__: the program in which callee names are resolved by role
 
 
@@ -407,10 +441,11 @@ def ctrl2(ctx) -> List[Ob]:
     seen = set()
     for actor in g.assigns:
         for s, V, e in g.stores_for(actor):
-            if id(s) in seen:
+            if (id(s), V) in seen:
                 continue
-            seen.add(id(s))
-            key = " ".join(A.unparse(s).split())
+            seen.add((id(s), V))
+            is_store = isinstance(s, ast.Assign) and isinstance(s.targets[0], ast.Subscript)
+            key = " ".join(A.unparse(s).split()) if is_store else f"variable_assignment[{V}] = " + " ".join(A.unparse(e).split())
             where = ctx.where(fn, s)
             rl = _rl(e)
             if V not in owners_var:
@@ -432,12 +467,16 @@ def ctrl2(ctx) -> List[Ob]:
         raise AnalysisError("no branching block constructed in insert_block_and_control_blocks")
     hc = heads[0][0]
     hv, ht = A.unparse(kw(hc, "variable")), A.unparse(kw(hc, "branch_value_table"))
-    for s in A.walk_no_nested(f2.node):
-        if isinstance(s, ast.Assign) and len(s.targets) == 1 and isinstance(s.targets[0], ast.Subscript) and "assign" in A.unparse(s.targets[0].value):
-            key = A.alpha_key(s)
+    seen2 = set()
+    for actor2, _n2 in _ctors(ctx, f2, "SyntheticAssignment"):
+        for s, V, e in _va_entries(ctx, f2, actor2):
+            if (id(s), V) in seen2:
+                continue
+            seen2.add((id(s), V))
+            is_store = isinstance(s, ast.Assign) and isinstance(s.targets[0], ast.Subscript)
+            key = A.alpha_key(s) if is_store else A.alpha_key(ast.parse(f"_va_[{V}] = {A.unparse(e)}").body[0])
             where = ctx.where(f2, s)
-            V = A.unparse(s.targets[0].slice)
-            val = A.unparse(s.value)
+            val = A.unparse(e)
             tstores = [t for t in A.walk_no_nested(f2.node) if isinstance(t, ast.Assign) and isinstance(t.targets[0], ast.Subscript) and A.unparse(t.targets[0].value) == ht]
             if V != hv:
                 out.append(bad("CTRL-2", f2.qualname, key, where, f"assigns {V}, but the head built here reads {hv}"))
@@ -469,14 +508,10 @@ def ctrl3(ctx) -> List[Ob]:
         if tgt != g.latch_name:
             out.append(bad("CTRL-3", fn.qualname, key, where, f"assignment block jumps to {tgt}, not to the exiting latch {g.latch_name}"))
             continue
-        va = kw(actor, "variable_assignment")
-        dnodes = [d for d in cfg.reaching_defs(actor, va.id) if d.stmt is not None] if isinstance(va, ast.Name) else []
-        an = cfg.node_of(actor)
         stores = g.stores_for(actor)
 
         def assigned_on_all_paths(V: str) -> bool:
-            sn = {cfg.node_of(s) for s, v, _e in stores if v == V}
-            return bool(dnodes) and all(an not in cfg.reachable(d, avoid=lambda z: z in sn) for d in dnodes)
+            return _va_assigned_on_all_paths(ctx, fn, actor, V)
 
         def assigned_under(V: str, cond: Optional[str]) -> bool:
             for s, v, _e in stores:
@@ -517,12 +552,7 @@ def ctrl3(ctx) -> List[Ob]:
         where = ctx.where(f2, actor)
         jt = kw(actor, "_jump_targets")
         tgt = A.unparse(jt.elts[0]) if isinstance(jt, ast.Tuple) and len(jt.elts) == 1 else None
-        va = kw(actor, "variable_assignment")
-        cfg2 = ctx.cfg(f2)
-        stores = [s for s in A.walk_no_nested(f2.node) if isinstance(s, ast.Assign) and isinstance(s.targets[0], ast.Subscript) and isinstance(va, ast.Name) and A.unparse(s.targets[0].value) == va.id and A.unparse(s.targets[0].slice) == hv]
-        dn = [d for d in cfg2.reaching_defs(actor, va.id) if d.stmt is not None] if isinstance(va, ast.Name) else []
-        sn = {cfg2.node_of(s) for s in stores}
-        okk = tgt == hn and dn and all(cfg2.node_of(actor) not in cfg2.reachable(d, avoid=lambda z: z in sn) for d in dn)
+        okk = tgt == hn and _va_assigned_on_all_paths(ctx, f2, actor, hv)
         if okk:
             out.append(ok("CTRL-3", f2.qualname, key, where, f"jumps to the new head {hn} and assigns its variable {hv} on every path"))
         else:
